@@ -74,6 +74,18 @@ def check(ctx):
            "module m; initial x = f(a %s b); endmodule\n", "class c; constraint k { x inside {[(a %s b):3]}; } endclass\n"]
     zoo = [("sv", cx % op) for op in OPS for cx in CTX]
     srcs += zoo if not q else r.sample(zoo, 12) + [("sv", CTX[0] % "->"), ("sv", CTX[3] % "->")]
+    # speculation zoo: expressions that are NOT constant-syntax, inside replications / selects, at places where the grammar tries a
+    # constant reading first and where the hand-written list() helper looks ahead (gate terminals, second and later assignments,
+    # port connections): a failure that is hard on a memo miss and soft on a hit shows as a dependence on the capacity
+    NONCONST = ["i++", "--j", "f(x)", "a.b", "$urandom", "c ? d : e", "obj.m()", "a inside {1}", "int'(y)", "{a, b}", "q[r++]"]
+    REPL = ["{2{%s}}", "{N{%s}}", "{2{%s, 1'b0}}", "%s", "{%s}"]
+    CTX2 = ["module m; buf b1 (o, in[a0][%s]); endmodule\n", "module m; not n1 (o1, o2, in[%s]); endmodule\n",
+            "module m; assign a = x, b[%s] = y; endmodule\n", "module m; assign a = x, b[a0][%s] = y, c[1] = z; endmodule\n",
+            "module m; sub u (.p(q[%s]), .r(s)); endmodule\n", "module m; initial begin a[%s] = 1; end endmodule\n",
+            "module m; and g (o, i1, i2[%s]); endmodule\n", "module m; assign y = %s; endmodule\n"]
+    spec_zoo = [("sv", cx % (rp % nc)) for cx in CTX2 for rp in REPL for nc in NONCONST]
+    spec_set = set(spec_zoo)
+    srcs += spec_zoo if not q else r.sample(spec_zoo, 16) + [("sv", CTX2[0] % "{2{i++}}"), ("sv", CTX2[2] % "{2{i++}}"), ("sv", CTX2[7] % "{2{i++}}")]
     # long operands: enough memo insertions between two uses of an entry to evict it at the default capacity
     longs = []
     for n in ((7, 9, 20) if q else (5, 6, 7, 8, 9, 12, 18, 19, 20, 24, 40)):
@@ -88,7 +100,10 @@ def check(ctx):
     c2, meta = [], {}
     for i, (k, s) in enumerate(srcs):
         small = (len(s) <= 120 or k == "pp") and (k, s) not in longs     # the long operands are exponential at tiny capacities
-        for cap in (CAPS_SMALL if small else CAPS_BIG):
+        caps = CAPS_SMALL if small else CAPS_BIG
+        if (k, s) in spec_set:
+            caps = ("16", "48", "64", "200", "1024", "none")              # backtracking-heavy: tiny capacities take minutes
+        for cap in caps:
             c = Case("m%d_%s" % (i, cap))
             c.add("want", "tree", "text").add("memo", cap)
             if k == "pp":
